@@ -14,9 +14,11 @@ import (
 	"github.com/GuanceCloud/platypus/pkg/errchain"
 	"pgregory.net/rapid"
 	"verifharness/evid"
+	"verifharness/gen"
 	"verifharness/impl"
 	"verifharness/probe"
 	"verifharness/rk"
+	"verifharness/sem"
 )
 
 const prop = "C19"
@@ -639,8 +641,11 @@ func TestCallSequences(t *testing.T) {
 			b.WriteString("a = 901\nb = 902\nc = 903\nd = 904\n")
 		}
 		// how each call statement is placed: at top level, or in a loop body after a conditional continue / break
-		placeOpen := []string{"", "for it in [1] {\n  if it == 2 { continue }\n  ", "for it = 0; it < 1; it = it + 1 {\n  if it == 5 { break } elif it == 6 { continue } else { q = 1 }\n  ", "if true {\n  "}
-		placeClose := []string{"", "\n}", "\n}", "\n}"}
+		// ... or in a branch that is followed by further elif / else branches, in a middle elif, in the else, nested
+		placeOpen := []string{"", "for it in [1] {\n  if it == 2 { continue }\n  ", "for it = 0; it < 1; it = it + 1 {\n  if it == 5 { break } elif it == 6 { continue } else { q = 1 }\n  ", "if true {\n  ",
+			"if true {\n  ", "if false { q = 1 } elif true {\n  ", "if false { q = 1 } elif false { q = 2 } else {\n  ", "if true { if true {\n  ", "for it in {\"k\": 1} {\n  if false { q = 0 } elif true {\n  "}
+		placeClose := []string{"", "\n}", "\n}", "\n}",
+			"\n} elif true { q = 2 } elif false { q = 3 }", "\n} elif true { q = 2 } else { q = 3 }", "\n}", "\n} elif true { q = 1 } } elif true { q = 2 } else { q = 3 }", "\n} elif true { q = 4 } }"}
 		places := make([]int, nst)
 		for i := 0; i < nst; i++ {
 			c := genCall(2)
@@ -847,6 +852,70 @@ func TestCallSequences(t *testing.T) {
 
 // TestManyParameters: parameter lists and argument lists far beyond the exhaustive bound (8 .. 100 parameters, up to
 // 300 variadic arguments): every parameter still receives exactly its own argument.
+// TestLiteralArgumentsEachEvaluation: a call that is evaluated several times in one run binds, each time, the value
+// its argument expression has at that time: a list or map literal is a new collection on every evaluation, whatever
+// the function or the script did with the one received before.
+func TestLiteralArgumentsEachEvaluation(t *testing.T) {
+	id, i, s := gen.NIdent, gen.NInt, gen.NStr
+	set := func(tg, v *gen.Node) *gen.Node { return gen.NAssign("=", []*gen.Node{tg}, []*gen.Node{v}) }
+	bodies := []struct {
+		name string
+		b    func() []*gen.Node
+	}{
+		{"list-positional", func() []*gen.Node {
+			return []*gen.Node{gen.NSet("r", gen.NCall("pval", gen.NList(i(1), i(2)))), gen.NCall("probe", s("got"), id("r")), set(gen.NIndex(id("r"), i(0)), gen.NBin("+", gen.NIndex(id("r"), i(0)), i(10)))}
+		}},
+		{"map-positional", func() []*gen.Node {
+			return []*gen.Node{gen.NSet("m", gen.NCall("pval", gen.NMap(s("level"), i(1)))), gen.NCall("probe", s("got"), id("m")), set(gen.NIndex(id("m"), s("extra")), id("it"))}
+		}},
+		{"nested-literal", func() []*gen.Node {
+			return []*gen.Node{gen.NSet("r", gen.NCall("pval", gen.NList(gen.NList(i(1)), gen.NMap(s("k"), gen.NList(i(2)))))), gen.NCall("probe", s("got"), id("r")), set(gen.NIndex(id("r"), i(0), i(0)), i(9)), set(gen.NIndex(id("r"), i(1), s("k"), i(0)), id("it"))}
+		}},
+		{"multi-value", func() []*gen.Node {
+			return []*gen.Node{gen.NAssign("=", []*gen.Node{id("a"), id("b")}, []*gen.Node{gen.NCall("pmulti", gen.NList(i(1), i(2)), gen.NMap(s("x"), i(0)))}), gen.NCall("probe", s("got"), id("a"), id("b")),
+				set(gen.NIndex(id("a"), i(1)), id("it")), set(gen.NIndex(id("b"), s("x")), id("it"))}
+		}},
+		{"call-in-call", func() []*gen.Node {
+			return []*gen.Node{gen.NSet("r", gen.NCall("pval", gen.NCall("pval", gen.NList(s("a"), s("b"))))), set(gen.NIndex(id("r"), i(1)), gen.NBin("+", gen.NIndex(id("r"), i(1)), s("!")))}
+		}},
+		{"variadic-probe", func() []*gen.Node {
+			return []*gen.Node{gen.NSet("r", gen.NCall("pval", gen.NList(i(0)))), gen.NCall("probe", s("args"), gen.NList(i(5)), gen.NMap(s("k"), i(6)), id("r")), set(gen.NIndex(id("r"), i(0)), id("it"))}
+		}},
+	}
+	loops := []func(b []*gen.Node) []*gen.Node{
+		func(b []*gen.Node) []*gen.Node { return []*gen.Node{gen.NForIn("it", gen.NList(i(1), i(2), i(3)), b)} },
+		func(b []*gen.Node) []*gen.Node {
+			return []*gen.Node{gen.NFor(gen.NSet("it", i(0)), gen.NBin("<", id("it"), i(3)), gen.NSet("it", gen.NBin("+", id("it"), i(1))), b)}
+		},
+		func(b []*gen.Node) []*gen.Node {
+			return []*gen.Node{gen.NForIn("o", gen.NList(i(1), i(2)), []*gen.Node{gen.NForIn("it", gen.NStr("ab"), []*gen.Node{gen.NIf([]*gen.Node{gen.NBool(true)}, [][]*gen.Node{b}, nil, false)})})}
+		},
+	}
+	n := 0
+	for _, bd := range bodies {
+		for li, lp := range loops {
+			if li == 2 && bd.name == "map-positional" {
+				continue // the pass variable is a character there; covered by the others
+			}
+			prog := lp(bd.b())
+			c := sem.NewCase(gen.FixAll(prog))
+			c.V2 = true
+			c.Print(nil)
+			v := sem.Decide(c, func() sem.ImplOut { return sem.RunV2(c, &probe.Sig{}) }, nil, false, true)
+			if v.Discard != nil {
+				evid.Discard(v.Discard.Error())
+				continue
+			}
+			if v.Msg != "" {
+				rk.Fail(t, "literal-args", replay{Src: c.Texts[c.Root], Sig: "pval(v) / pmulti(vals...) / probe(label, vals...)", Call: bd.name}, "v2: %s\nscript:\n%s", v.Msg, c.Texts[c.Root])
+			}
+			evid.Case(fmt.Sprintf("literalargs/%s/%d", bd.name, li), true, "literal-argument-each-evaluation")
+			n++
+		}
+	}
+	evid.Exhaustive("collection-literal argument x loop form: every evaluation binds a new collection", n)
+}
+
 func TestManyParameters(t *testing.T) {
 	n := 0
 	for _, np := range []int{8, 15, 16, 17, 31, 32, 33, 63, 64, 65, 100} {
